@@ -22,7 +22,7 @@ PICTURE_NUMBERS = {"start_at_zero": [0, 1, 2, 3, 4, 5, 6, 7], "non_zero_start": 
 SOURCE_FRAMES = {"padding_data": 2, "absent_next_parse_offset": 2, "concatenated_sequences": 2, "slice_padding_data": 1,
                  "dangling_bounded_block_data": 1, "slice_prefix_bytes": 1, "slice_size_scaler": 1,
                  "source_parameters_encodings": 1, "repeated_sequence_headers": 2, "extended_transform_parameters": 1}
-SLOW = {"signal_range", "real_pictures"}   # need the large bundled analyses / natural pictures: thorough tier only
+SLOW = {"signal_range", "real_pictures"}   # need the large bundled analyses / natural pictures: a subset of the configurations
 
 
 class Timeout(BaseException):  # not an Exception: the code under test may catch Exception broadly
@@ -280,7 +280,7 @@ class Prop(object):
     lean_modules = ["VC2.Props.C05"]
     status = "partial"
     rule = ("random small codec configurations (profiles, lossless, wavelet pairs, depths, slices, fragments, subsampling, coding modes, depths 8-12, custom/default matrices): every test case "
-            "of the REAL decoder registry (all 20 generators; signal_range and real_pictures in the thorough tier) is serialised and validated; names unique; configured parameters; "
+            "of the REAL decoder registry (all 20 generators; signal_range and real_pictures for two small configurations (one with two slice rows), six more in the thorough tier) is serialised and validated; names unique; configured parameters; "
             "encoding-variant generators decode picture-for-picture like their first case and like the plain encoding of the same source; mid-grey cases exact; picture-number cases as documented")
     trusted = ["the stream-structure model (C01) for the transparency lemmas; generated registry name table; the runner harness/codecgen.py",
                "hand-written model lean/VC2/Model/SlicePad.lean of the slice-padding fillers, tied by the `sp` correspondence",
@@ -321,8 +321,8 @@ class Prop(object):
         for ci, cf in enumerate(cfs):
             try:
                 # the two slow generators (signal_range, real_pictures: large analyses, natural pictures) run for a
-                # handful of configurations of the thorough tier only
-                why, n, skipped = violates(cf, ctx.thorough and 20 <= ci < 26)
+                # few small configurations with several slice rows and columns (and six more in the thorough tier)
+                why, n, skipped = violates(cf, ci in (0, 12) or (ctx.thorough and 20 <= ci < 26))
             except Exception as e:  # noqa
                 why, n, skipped = "exception %s: %s" % (type(e).__name__, str(e)[:200]), 0, []
             ctx.evaluations += n
